@@ -7,7 +7,7 @@
 (* The spec state `cur` follows the logged state: an event whose pre-state is *)
 (* not the state the previous event left behind is a gap in the trace.        *)
 EXTENDS TraceBase, Session
-VARIABLES l, cur
+VARIABLES l, cur, memo
 
 Pre(p, S) == { p \o x : x \in S }
 
@@ -16,6 +16,7 @@ PreOf(ev) == IF ev.step = 1 THEN ev.pre ELSE cur
 
 ObjChanged(a, b) == (IF Diff(a.ann, b.ann) # {} THEN Pre("annotation_", Diff(a.ann, b.ann)) ELSE {})
                     \cup (IF a.has # b.has THEN {"annotation_presence_of_optional_fields"} ELSE {})
+                    \cup (IF a.text # b.text THEN {"annotation_serialized_text"} ELSE {})
 
 QueryFails(ev) ==
     Pre("argument_changed_", ObjChanged(PreOf(ev).obj, ev.post.obj))
@@ -23,6 +24,10 @@ QueryFails(ev) ==
     \cup (IF ev.post.glob.rng # PreOf(ev).glob.rng THEN {"caller_random_state_changed"} ELSE {})
     \cup (IF ev.post.glob.voc # PreOf(ev).glob.voc THEN {"modification_database_changed"} ELSE {})
     \cup (IF ev.res # ev.fresh THEN {"result_differs_from_first_call_on_fresh_object"} ELSE {})
+    (* the same call on the same state in a fresh interpreter (ev.ref = "" when no reference was recorded) *)
+    \cup (IF ev.ref # "" /\ ev.res # ev.ref THEN {"result_differs_from_fresh_process"} ELSE {})
+    (* the same query earlier in this history, no editor in between: same answer (memo = <<call, result>> pairs) *)
+    \cup (IF ev.step > 1 /\ \E p \in memo : p[1] = ev.call /\ p[2] # ev.res THEN {"result_depends_on_call_history"} ELSE {})
     \cup Pre("editing_the_result_changed_", ObjChanged(ev.post.obj, ev.edited.obj))
     \cup (IF ev.edited.aux # ev.post.aux THEN {"editing_the_result_changed_argument_container"} ELSE {})
 
@@ -40,11 +45,13 @@ Fails(ev) ==
     \cup (IF ev.cls = "Q" THEN QueryFails(ev) ELSE EditorFails(ev))
 
 Dev(ev) == ""
-Init == l = 1 /\ cur = <<>> /\ ResetCounters
+Init == l = 1 /\ cur = <<>> /\ memo = {} /\ ResetCounters
 Next == /\ l <= NEvents
         /\ LET f == Fails(Events[l]) IN Record(Events[l], MkVerdict(f, IF f = {} THEN "" ELSE Dev(Events[l])))
         /\ cur' = Events[l].edited        \* total validator: adopt the logged state and go on
+        /\ memo' = LET ev == Events[l]  old == IF ev.step = 1 THEN {} ELSE memo IN
+                   IF ev.cls = "E" THEN {} ELSE old \cup {<<ev.call, ev.res>>}
         /\ l' = l + 1
-Spec == Init /\ [][Next]_<<l, cur>>
+Spec == Init /\ [][Next]_<<l, cur, memo>>
 Post == PrintT(Totals) /\ TLCGet(1) + TLCGet(2) + TLCGet(3) = NEvents
 ==============================================================================
